@@ -247,7 +247,7 @@ func (rn *runner) segmented(w *World, r *lib.RNG, inputs [][]byte) {
 	defer close(shutdown)
 	c := &wsClient{url: ws.URL}
 	if err := c.dial(); err != nil {
-		res.Note("segmented ws: dial failed: %v", err)
+		res.Fatalf("segmented ws: dial failed: %v", err)
 		return
 	}
 	defer c.conn.CloseNow()
